@@ -209,3 +209,22 @@ def auth_list(auth, keys: Keys, r: random.Random, dups=False):
     if dups and lst and r.random() < 0.3:
         lst.append(r.choice(lst))
     return lst
+
+
+def prime_related(case, keys: Keys, sigs, Q):
+    """Verify, just before the call under test, the 'related input': the SAME keys and the SAME signature entries over
+    the OTHER payload Q (for which those entries are genuinely valid).  Verdicts must not depend on earlier calls, so
+    this never changes what the specification allows; it exposes verdict caches keyed by (key, signature)."""
+    from . import lib
+    auth = lib.cct("authentication")
+    entries = case["e"].items() if isinstance(case["e"], dict) else enumerate(case["e"], 1)
+    for fr in ("raw", "gpg"):
+        sub = {}
+        for ks, v in entries:
+            k = int(ks)
+            if v[0] in ("raw", "gpg", "gpgfp") and v[1] == "self" and v[2] == "Q" and v[3] == fr and v[4] and keys.pub[k] in sigs:
+                if fr == "gpg" and v[0] == "raw":
+                    continue
+                sub[keys.pub[k]] = sigs[keys.pub[k]]
+        if sub:
+            lib.call(auth.verify_signable, {"signatures": dict(sub), "signed": Q}, list(sub), 1, gpg=(fr == "gpg"))
